@@ -98,3 +98,39 @@ Definition pardot_out (t reps : nat) (v w : list T) : list Z :=
   end.
 
 End ParDot.
+
+(* ---- test data for the correspondence check, generated INSIDE Coq ----
+   Parsing a few hundred float literals per case costs coqc far more than running the model, so for the sweep
+   over (length, worker count) the two data vectors are produced by a small linear congruential generator on
+   Uint63 that driver/c16.py mirrors step by step (gen_data): the executor receives the same values as explicit
+   bit patterns.  If the two generators ever disagreed the tie would fail on every case -- it cannot hide anything.
+   mode 0: "arbitrary" f64 values  +-m * 2^e, m < 2^33, e in [-40, 23]  (products and sums round);
+   mode 1: integers in [-1000, 1000] (every partial sum is exact). *)
+From Coq Require Import Floats Uint63.
+From OV Require Import Inst.FloatInst.
+
+Definition lcg (s : int) : int := (s * 6364136223846793005 + 1442695040888963407)%uint63.
+
+Definition gen_val (mode : nat) (s : int) : float :=
+  match mode with
+  | O =>
+      let m := (s >> 30)%uint63 in                                   (* 33 bits *)
+      let e := (Uint63.to_Z ((s >> 24) land 63)%uint63 - 40)%Z in
+      let x := Z.ldexp (PrimFloat.of_uint63 m) e in
+      if (Uint63.eqb ((s >> 23) land 1) 1)%uint63 then PrimFloat.opp x else x
+  | _ =>
+      let m := ((s >> 30) mod 2001)%uint63 in                        (* 0..2000 *)
+      PrimFloat.sub (PrimFloat.of_uint63 m) 1000%float
+  end.
+
+Fixpoint gen_vec (mode n : nat) (s : int) : list float * int :=
+  match n with
+  | O => ([], s)
+  | S n' => let s1 := lcg s in
+            let '(t, s2) := gen_vec mode n' s1 in (gen_val mode s1 :: t, s2)
+  end.
+
+Definition pardot_gen_out (t reps len mode : nat) (seed : int) : list Z :=
+  let '(v, s1) := gen_vec mode len seed in
+  let '(w, _) := gen_vec mode len s1 in
+  pardot_out (A := AF) flat_f t reps v w.
